@@ -8,6 +8,7 @@ import (
 	"go/types"
 	"os"
 	"regexp"
+	"sort"
 	"strings"
 )
 
@@ -26,6 +27,9 @@ func runC08(r *Run, p *Prog) {
 	siblingRules(r, p, "C01", []string{"R2"}, "B8")
 	// B11: the generated Reply<Error> helpers reach the client only if the library's error reply refuses nothing but names without interface part and the reserved interface
 	siblingRules(r, p, "C12", []string{"X1"}, "B11")
+	// B13: the stubs of methods without outputs call receive(ctx, nil): the library's receive function must report
+	// success for every complete non-error frame whatever decoding the parameters into the caller's value does
+	siblingRules(r, p, "C11", []string{"N4"}, "B13")
 	m, why := buildIDLModel(p)
 	if m == nil {
 		r.Unresolved("B1", why)
@@ -548,6 +552,83 @@ func runC08(r *Run, p *Prog) {
 		if n == 0 {
 			r.Unresolved("B10", "emitted `receive(ctx, &<var>)` in the client stubs")
 		}
+	})
+	// ---- B12: guard and body speak about the same parameter list: an `if len(x.A.Fields) > 0` of the template whose body
+	// serialises the sibling member x.B (same type, same struct) and never x.A builds the in-struct when there are
+	// outputs, or the out-struct when there are inputs (copy-and-paste between the look-alike sections of Send/Upgrade)
+	r.Guard("B12", func() {
+		n := 0
+		ord := map[string]int{}
+		var fds []*ast.FuncDecl
+		for _, fd := range w.funcs {
+			fds = append(fds, fd)
+		}
+		sort.Slice(fds, func(i, j int) bool { return fds[i].Pos() < fds[j].Pos() })
+		for _, fd := range fds {
+			ast.Inspect(fd, func(nd ast.Node) bool {
+				is, ok := nd.(*ast.IfStmt)
+				if !ok {
+					return true
+				}
+				be, ok := is.Cond.(*ast.BinaryExpr)
+				if !ok {
+					return true
+				}
+				call, ok := be.X.(*ast.CallExpr)
+				if !ok || len(call.Args) != 1 {
+					return true
+				}
+				if id, isId := call.Fun.(*ast.Ident); !isId || id.Name != "len" {
+					return true
+				}
+				fsel, ok := call.Args[0].(*ast.SelectorExpr) // x.A.Fields
+				if !ok {
+					return true
+				}
+				asel, ok := fsel.X.(*ast.SelectorExpr) // x.A
+				if !ok {
+					return true
+				}
+				base := types.ExprString(asel.X)
+				tv, ok := info.Types[asel.X]
+				if !ok {
+					return true
+				}
+				st := derefStruct(tv.Type)
+				if st == nil {
+					return true
+				}
+				// the sibling members: other members of x's struct with the type of x.A
+				at := info.Types[asel].Type
+				siblings := map[string]bool{}
+				for i := 0; i < st.NumFields(); i++ {
+					if f := st.Field(i); f.Name() != asel.Sel.Name && at != nil && types.Identical(f.Type(), at) {
+						siblings[f.Name()] = true
+					}
+				}
+				if len(siblings) == 0 {
+					return true
+				}
+				usesOwn, usesSibling := false, ""
+				ast.Inspect(is.Body, func(x ast.Node) bool {
+					if se, ok := x.(*ast.SelectorExpr); ok && types.ExprString(se.X) == base {
+						if se.Sel.Name == asel.Sel.Name {
+							usesOwn = true
+						} else if siblings[se.Sel.Name] {
+							usesSibling = se.Sel.Name
+						}
+					}
+					return true
+				})
+				n++
+				ord[fd.Name.Name+"/"+asel.Sel.Name]++
+				r.Ob("B12", fd.Name.Name, fmt.Sprintf("the block guarded by len(%s.%s.Fields) (#%d) encodes that parameter list", base, asel.Sel.Name, ord[fd.Name.Name+"/"+asel.Sel.Name]), is.Pos(), usesOwn || usesSibling == "",
+					"the guard tests "+base+"."+asel.Sel.Name+" but the guarded text is built from "+base+"."+usesSibling+" only: for a method with one list empty and the other not, the stub drops the caller's arguments (or declares values it has no fields for)")
+				return true
+			})
+		}
+		r.Stat("B12_guards", n)
+		r.Floor("B12", 4)
 	})
 	// ---- B7: the library primitives the stubs delegate flag handling to (re-evaluated from C03/C11): a fresh reply value
 	// per receive and the continues mapping
